@@ -205,7 +205,7 @@ macro_rules! c04_canon {
     };
 }
 
-//@ h=c04_fmt_short_p props=C04,C06,C14 cfgs=K0,K2,K3 tier=q t=600 | funcs: Short::{try_from(&[u8;15]), store_into_str_bytes(WithVersion)}, encode_rev_array/encode_rev_1/encode_array (full / half / min encode tables, one per configuration) | bound: all 2^120 values: exact length, "T1", every character == uppercase digit of the reference form (header nibble-swapped, body plain)
+//@ h=c04_fmt_short_p props=C04,C06,C14,C07 cfgs=K0,K2,K3 tier=q t=600 | funcs: Short::{try_from(&[u8;15]), store_into_str_bytes(WithVersion)}, encode_rev_array/encode_rev_1/encode_array (full / half / min encode tables, one per configuration) | bound: all 2^120 values: exact length, "T1", every character == uppercase digit of the reference form (header nibble-swapped, body plain)
 c04_fmt!(c04_fmt_short_p, Short, 1, 15, 32, true, 36);
 //@ h=c04_fmt_short_e props=C04,C06,C14 cfgs=K1,K3 tier=q t=600 | funcs: Short::store_into_str_bytes(Empty) | bound: all values, no prefix
 c04_fmt!(c04_fmt_short_e, Short, 1, 15, 32, false, 36);
@@ -220,7 +220,7 @@ c04_fmt!(c04_fmt_longl_p, LongWithLongChecksum, 3, 69, 140, true, 144);
 //@ h=c04_fmt_longl_e props=C04,C06 cfgs=K1 tier=t t=1200 | funcs: LongWithLongChecksum::store_into_str_bytes(Empty) | bound: all values
 c04_fmt!(c04_fmt_longl_e, LongWithLongChecksum, 3, 69, 140, false, 144);
 
-//@ h=c04_rt_short_pa props=C04 cfgs=K0,K1,K3,K4,K5 tier=q t=900 | funcs: Short::{store_into_str_bytes(WithVersion), from_str_bytes(None), store_into_bytes} through every decode-table variant (one per configuration) | bound: all 2^120 values: parse(format(h)) == h
+//@ h=c04_rt_short_pa props=C04,C07 cfgs=K0,K1,K3,K4,K5 tier=q t=900 | funcs: Short::{store_into_str_bytes(WithVersion), from_str_bytes(None), store_into_bytes} through every decode-table variant (one per configuration) | bound: all 2^120 values: parse(format(h)) == h
 c04_rt!(c04_rt_short_pa, Short, 15, 32, true, true, 36);
 //@ h=c04_rt_short_ee props=C04 cfgs=K1 tier=q t=900 | funcs: Short::{store_into_str_bytes(Empty), from_str_bytes(Some(Empty))} | bound: all values
 c04_rt!(c04_rt_short_ee, Short, 15, 32, false, false, 36);
@@ -348,9 +348,9 @@ macro_rules! c05_parse {
 }
 
 // lenient parser (all non-strict configurations select the same gates; table variants K0,K3,K4,K5)
-//@ h=c05_short_30 props=C05 cfgs=K0,K1,K3,K4,K5 tier=q t=900 | funcs: Short::from_str_bytes, decode_rev_array, decode_rev_1, decode_array, decode_1 | bound: ALL byte strings of length 30 (incl. non-UTF-8) x 3 prefix modes
+//@ h=c05_short_30 props=C05,C07 cfgs=K0,K1,K3,K4,K5 tier=q t=900 | funcs: Short::from_str_bytes, decode_rev_array, decode_rev_1, decode_array, decode_1 | bound: ALL byte strings of length 30 (incl. non-UTF-8) x 3 prefix modes
 c05_parse!(c05_short_30, Short, 1, 15, 32, 30, 36, false);
-//@ h=c05_short_32 props=C05 cfgs=K0,K1,K3,K4,K5 tier=q t=900 | funcs: Short::from_str_bytes | bound: ALL byte strings of length 32 x 3 prefix modes
+//@ h=c05_short_32 props=C05,C07,C17 cfgs=K0,K1,K3,K4,K5,K10 tier=q t=900 | funcs: Short::from_str_bytes | bound: ALL byte strings of length 32 x 3 prefix modes
 c05_parse!(c05_short_32, Short, 1, 15, 32, 32, 36, false);
 //@ h=c05_short_31 props=C05 cfgs=K1 tier=q t=300 | funcs: Short::from_str_bytes | bound: ALL byte strings of length 31 x 3 prefix modes
 c05_parse!(c05_short_31, Short, 1, 15, 32, 31, 36, false);
@@ -487,7 +487,7 @@ macro_rules! c06_bin {
         }
     };
 }
-//@ h=c06_bin_short props=C06,C08 cfgs=K1 tier=q t=600 | funcs: Short::{TryFrom<&[u8;15]>, TryFrom<&[u8]>, store_into_bytes, checksum, length, qratios, body, quartile, clear_checksum, PartialEq} | bound: all 2^120 values; symbolic byte/bucket indices
+//@ h=c06_bin_short props=C06,C08,C17 cfgs=K1,K10 tier=q t=600 | funcs: Short::{TryFrom<&[u8;15]>, TryFrom<&[u8]>, store_into_bytes, checksum, length, qratios, body, quartile, clear_checksum, PartialEq} | bound: all 2^120 values; symbolic byte/bucket indices
 c06_bin!(c06_bin_short, Short, 1, 48, 15, 20, false);
 //@ h=c06_bin_normal props=C06,C08 cfgs=K1 tier=q t=600 | funcs: Normal binary form and accessors | bound: all 2^280 values
 c06_bin!(c06_bin_normal, Normal, 1, 128, 35, 40, false);
@@ -495,7 +495,7 @@ c06_bin!(c06_bin_normal, Normal, 1, 128, 35, 40, false);
 c06_bin!(c06_bin_normall, NormalWithLongChecksum, 3, 128, 37, 40, false);
 //@ h=c06_bin_long props=C06,C08 cfgs=K1 tier=q t=900 | funcs: Long binary form and accessors | bound: all 2^536 values
 c06_bin!(c06_bin_long, Long, 1, 256, 67, 72, false);
-//@ h=c06_bin_longl props=C06,C08 cfgs=K1 tier=q t=900 | funcs: LongWithLongChecksum binary form and accessors | bound: all 2^552 values
+//@ h=c06_bin_longl props=C06,C08,C17 cfgs=K1,K10 tier=q t=900 | funcs: LongWithLongChecksum binary form and accessors | bound: all 2^552 values
 c06_bin!(c06_bin_longl, LongWithLongChecksum, 3, 256, 69, 72, false);
 //@ h=c15_bin_short props=C15 cfgs=K7 tier=q t=600 | funcs: Short::TryFrom<&[u8;15]> / <&[u8]> with strict-parser | bound: all 2^120 byte arrays
 c06_bin!(c15_bin_short, Short, 1, 48, 15, 20, true);
@@ -543,16 +543,16 @@ c06_oob!(c06_oob_long, Long, 67, usize::MAX);
 
 // ------------------------------------------------------------------ C14: caller's buffer
 
+// form: 0 = binary, 1 = hex without prefix, 2 = hex with "T1" (concrete per instance: a symbolic
+// form makes the output cursor a symbolic-offset pointer, see c04_fmt)
 macro_rules! c14_buf {
-    ($name:ident, $ty:ty, $n:literal, $l:literal, $unw:literal) => {
+    ($name:ident, $ty:ty, $n:literal, $l:literal, $form:literal, $unw:literal) => {
         #[kani::proof]
         #[kani::unwind($unw)]
         fn $name() {
             let bytes: [u8; $n] = kani::any();
             let h = <$ty>::try_from(&bytes).unwrap();
-            let form: u8 = kani::any();
-            kani::assume(form < 3);
-            let need = match form {
+            let need: usize = match $form {
                 0 => $n,
                 1 => $l - 2,
                 _ => $l,
@@ -561,7 +561,7 @@ macro_rules! c14_buf {
             let prior = buf;
             let len: usize = kani::any();
             kani::assume(len <= need + 64);
-            let r = match form {
+            let r = match $form {
                 0 => h.store_into_bytes(&mut buf[..len]),
                 1 => h.store_into_str_bytes(&mut buf[..len], HexStringPrefix::Empty),
                 _ => h.store_into_str_bytes(&mut buf[..len], HexStringPrefix::WithVersion),
@@ -578,13 +578,13 @@ macro_rules! c14_buf {
                 } else {
                     // same representation as into an exactly sized buffer
                     let mut exact = [0u8; $l];
-                    let _ = match form {
+                    let _ = match $form {
                         0 => h.store_into_bytes(&mut exact[..need]),
                         1 => h.store_into_str_bytes(&mut exact[..need], HexStringPrefix::Empty),
                         _ => h.store_into_str_bytes(&mut exact[..need], HexStringPrefix::WithVersion),
                     };
                     assert!(buf[k] == exact[k]);
-                    if form == 0 {
+                    if $form == 0 {
                         assert!(buf[k] == bytes[k]);
                     }
                 }
@@ -595,13 +595,21 @@ macro_rules! c14_buf {
         }
     };
 }
-//@ h=c14_buf_short props=C14 cfgs=K1,K3,K2 tier=q t=900 | funcs: Short::{store_into_bytes, store_into_str_bytes(Empty|WithVersion)}, encode_rev_array, encode_rev_1, encode_array | bound: all values x 3 forms x ALL buffer lengths 0..=N+64 (symbolic length) x arbitrary prior content
-c14_buf!(c14_buf_short, Short, 15, 32, 36);
-//@ h=c14_buf_normal props=C14 cfgs=K1 tier=q t=1500 | funcs: Normal::{store_into_bytes, store_into_str_bytes} | bound: all values x 3 forms x all buffer lengths 0..=N+64
-c14_buf!(c14_buf_normal, Normal, 35, 72, 76);
-//@ h=c14_buf_normall props=C14 cfgs=K1 tier=t t=1800 | funcs: NormalWithLongChecksum::{store_into_bytes, store_into_str_bytes} | bound: all values x 3 forms x all buffer lengths
-c14_buf!(c14_buf_normall, NormalWithLongChecksum, 37, 76, 80);
-//@ h=c14_buf_long props=C14 cfgs=K1 tier=t t=2400 | funcs: Long::{store_into_bytes, store_into_str_bytes} | bound: all values x 3 forms x all buffer lengths
-c14_buf!(c14_buf_long, Long, 67, 136, 140);
-//@ h=c14_buf_longl props=C14 cfgs=K1 tier=t t=2400 | funcs: LongWithLongChecksum::{store_into_bytes, store_into_str_bytes} | bound: all values x 3 forms x all buffer lengths
-c14_buf!(c14_buf_longl, LongWithLongChecksum, 69, 140, 144);
+//@ h=c14_short_bin props=C14 cfgs=K1 tier=q t=900 | funcs: Short::store_into_bytes | bound: all values x ALL buffer lengths 0..=N+64 (symbolic length) x arbitrary prior content
+c14_buf!(c14_short_bin, Short, 15, 32, 0, 36);
+//@ h=c14_short_hex props=C14 cfgs=K1,K2,K3 tier=q t=900 | funcs: Short::store_into_str_bytes(Empty), encode_rev_array, encode_rev_1, encode_array (three encode-table configurations) | bound: all values x all buffer lengths 0..=N+64 x arbitrary prior content
+c14_buf!(c14_short_hex, Short, 15, 32, 1, 36);
+//@ h=c14_short_t1 props=C14 cfgs=K1,K3 tier=q t=900 | funcs: Short::store_into_str_bytes(WithVersion) | bound: all values x all buffer lengths 0..=N+64 x arbitrary prior content
+c14_buf!(c14_short_t1, Short, 15, 32, 2, 36);
+//@ h=c14_normal_t1 props=C14 cfgs=K1 tier=q t=1500 | funcs: Normal::store_into_str_bytes(WithVersion) | bound: all values x all buffer lengths
+c14_buf!(c14_normal_t1, Normal, 35, 72, 2, 76);
+//@ h=c14_normall_bin props=C14 cfgs=K1 tier=q t=900 | funcs: NormalWithLongChecksum::store_into_bytes | bound: all values x all buffer lengths
+c14_buf!(c14_normall_bin, NormalWithLongChecksum, 37, 76, 0, 80);
+//@ h=c14_normall_hex props=C14 cfgs=K1 tier=t t=1800 | funcs: NormalWithLongChecksum::store_into_str_bytes(Empty) | bound: all values x all buffer lengths
+c14_buf!(c14_normall_hex, NormalWithLongChecksum, 37, 76, 1, 80);
+//@ h=c14_long_t1 props=C14 cfgs=K1 tier=t t=2400 | funcs: Long::store_into_str_bytes(WithVersion) | bound: all values x all buffer lengths
+c14_buf!(c14_long_t1, Long, 67, 136, 2, 140);
+//@ h=c14_longl_hex props=C14 cfgs=K1 tier=t t=2400 | funcs: LongWithLongChecksum::store_into_str_bytes(Empty) | bound: all values x all buffer lengths
+c14_buf!(c14_longl_hex, LongWithLongChecksum, 69, 140, 1, 144);
+//@ h=c14_longl_bin props=C14 cfgs=K1 tier=q t=900 | funcs: LongWithLongChecksum::store_into_bytes | bound: all values x all buffer lengths
+c14_buf!(c14_longl_bin, LongWithLongChecksum, 69, 140, 0, 144);
